@@ -60,8 +60,15 @@ JudgeRename(e, grp) ==
     [] grp = "faithful" -> Sem(e, grp, EquivClauses(e.res, Renamed(e.c1, e.s, e.t)))
     [] OTHER -> <<"malformed", "group">>
 
+JudgeRenames(e, grp) ==
+  LET want == RenamedAll(e.c1, e.maps, 1) IN
+  CASE grp = "itf" -> ItfJudge(e, ~ClashAll(e.c1, e.maps, 1), Set(want.inv), Set(want.outv))
+    [] grp = "faithful" -> Sem(e, grp, EquivClauses(e.res, want))
+    [] OTHER -> <<"malformed", "group">>
+
 Judge(e, grp) ==
   CASE e.op = "compose" -> JudgeCompose(e, grp)
+    [] e.op = "renames" -> JudgeRenames(e, grp)
     [] e.op = "quotient" -> JudgeQuotient(e, grp)
     [] e.op = "merge" -> JudgeMerge(e, grp)
     [] e.op = "rename" -> JudgeRename(e, grp)
